@@ -17,6 +17,17 @@ Proof.
   destruct (take_while is_sp l) as [w r]. cbn [fst snd] in *. lia.
 Qed.
 
+(* when the skip stops at a byte that is not '<', the unskipped input does not start with '<' either *)
+Lemma skip_sp_head l cur c t : fst (skip_sp l cur) = c :: t -> (c =? 60) = false ->
+  exists h tl, l = h :: tl /\ (h =? 60) = false.
+Proof.
+  unfold skip_sp. destruct l as [|h tl]; cbn [take_while]; [discriminate|].
+  destruct (is_sp h) eqn:Eh.
+  - intros _ _. exists h, tl. split; [reflexivity|].
+    unfold is_sp in Eh. destruct (h =? 60) eqn:E; [|reflexivity]. apply N.eqb_eq in E. subst h. discriminate Eh.
+  - cbn [fst]. intros H Hc. injection H as -> ->. eauto.
+Qed.
+
 Lemma skip_sp_mono l cur : cur <= snd (skip_sp l cur).
 Proof. unfold skip_sp. destruct (take_while is_sp l) as [w r]. cbn [snd]. lia. Qed.
 
@@ -165,6 +176,7 @@ Proof.
   unfold aligned, next. intros Hal.
   destruct (negb (max_tokens o =? 0) && (max_tokens o <=? x_produced s)); [lia|].
   pose proof (skip_sp_len (x_rest s) (x_cur s)) as H0. pose proof (skip_sp_mono (x_rest s) (x_cur s)) as M0.
+  pose proof (skip_sp_head (x_rest s) (x_cur s)) as Hhead.
   destruct (skip_sp (x_rest s) (x_cur s)) as [l cur]. cbn [fst snd] in *.
   destruct l as [|c t].
   { destruct (x_stack s); [reflexivity|rewrite lenN_nil in *; lia]. }
@@ -240,15 +252,14 @@ Proof.
     destruct empty;
       cbn [tok_at produced x_rest x_cur x_produced t_offset t_text_off t_text t_name_off t_name t_kind t_attrs t_depth];
       unfold tok_in; cbn [t_offset t_text_off t_text t_name_off t_name]; fin.
-  - (* text *)
-    pose proof (take_while_len (fun b => negb (b =? 60)) (c :: t)) as Ht.
-    destruct (take_while (fun b => negb (b =? 60)) (c :: t)) as [txt r] eqn:Etw. cbn [fst snd] in Ht.
-    rewrite lenN_cons in Ht.
+  - (* text: from where the parser stood before the skip *)
+    destruct (Hhead c t eq_refl E60) as (h & tl & Hrest & Hh).
+    pose proof (take_while_len (fun b => negb (b =? 60)) (x_rest s)) as Ht.
+    destruct (take_while (fun b => negb (b =? 60)) (x_rest s)) as [txt r] eqn:Etw. cbn [fst snd] in Ht.
     destruct (max_text o <? lenN txt) eqn:Em; [lia|].
     assert (Hpos : 0 < lenN txt).
-    { cbn [take_while] in Etw. destruct (negb (c =? 60)) eqn:Ec.
-      - destruct (take_while (fun b => negb (b =? 60)) t). injection Etw as <- _. rewrite lenN_cons. lia.
-      - (* c = '<' contradicts the branch *) rewrite E60 in Ec. discriminate. }
+    { rewrite Hrest in Etw. cbn [take_while] in Etw. rewrite Hh in Etw. cbn [negb] in Etw.
+      destruct (take_while (fun b => negb (b =? 60)) tl). injection Etw as <- _. rewrite lenN_cons. lia. }
     cbn [tok_at produced x_rest x_cur x_produced t_offset t_text_off t_text t_name_off t_name t_kind t_attrs t_depth].
     unfold tok_in. cbn [t_offset t_text_off t_text t_name_off t_name].
     fin.
